@@ -23,7 +23,7 @@ def xyz_site(exc):
 class CropMachine:
     NAME = "crp"
 
-    def __init__(self, ctx, kinds=None, max_n=40, farmer=None):
+    def __init__(self, ctx, kinds=None, max_n=40, farmer=None, max_batches=None):
         import xyzpy  # noqa - after interpose.install()
 
         self.ctx = ctx
@@ -45,6 +45,9 @@ class CropMachine:
         sc.kind = sc.sweep.kind
         sc.N = sc.sweep.n()
         sc.batching = G.gen_batching(t, sc.N)
+        if max_batches and G.expected_num_batches(sc.N, sc.batching) > max_batches:
+            sc.batching = {"how": "num_batches", "site": sc.batching["site"],
+                           "value": t.int_between(1, max_batches, "nb-cap")}
         sc.shuffle = G.gen_shuffle(t)
         if sc.sweep.cases is None:
             sc.api = "sow_combos"
@@ -146,6 +149,7 @@ class CropMachine:
     def sow(self):
         crop = self.new_sow_crop()
         self.long_crop = crop
+        self.sow_crop = crop  # the object that was constructed with the sow-time arguments
         self.ctx.t("sow", self.sc.api, self.ctor_kwargs())
         self.call("sower", lambda: self.do_sow(crop), oracle="sow-raised")
         self.batches = G.read_batch_files(self.location)
@@ -253,3 +257,442 @@ def run_c04(ctx):
     ctx.nontrivial = m.B > 1 and nops >= 1
     ctx.key = repr((m.sc.N, m.B, m.sc.batching, m.sc.shuffle, m.sc.api, m.sc.kind,
                     [x for x in ctx.trace if x.startswith("grow")]))
+
+
+# ------------------------------------------------------------------- C08
+
+
+class ProgressModel:
+    def __init__(self, m):
+        self.m = m
+        self.finished = set()
+        self.all = set(range(1, m.B + 1))
+        self.keys = {b: [calllog.key(kw) for kw in kws] for b, kws in m.batches.items()}
+
+    def poisoned(self, b):
+        return any(k in calllog.POISON for k in self.keys[b])
+
+    def completed_in(self, log_slice):
+        called = set(k for _, k in log_slice)
+        return {b for b in self.all
+                if all(k in called for k in self.keys[b]) and not self.poisoned(b)}
+
+
+def query_progress(m, model, where):
+    """Ask all progress queries of a freshly loaded Crop and of the long-lived
+    object; every answer must equal the model."""
+    B = m.B
+    exp_missing = tuple(sorted(model.all - model.finished))
+    exp = (B, len(model.finished), exp_missing, model.finished == model.all)
+    for which in ("fresh", "long"):
+        if which == "long" and m.long_crop is None:
+            continue
+
+        def f():
+            c = m.load_crop() if which == "fresh" else m.long_crop
+            return (c.num_sown_batches, c.num_results, tuple(c.missing_results()),
+                    bool(c.is_ready_to_reap()), str(c))
+
+        (got, _) = m.call("poller", f, oracle="progress-query-raised")
+        m.w.note("progress", got[:4])
+        if tuple(got[:4]) != exp:
+            names = ("num_sown_batches", "num_results", "missing_results", "is_ready_to_reap")
+            bad = [n for n, g, e in zip(names, got[:4], exp) if g != e]
+            raise Violation(
+                "progress-mismatch/" + bad[0],
+                "{} ({} object): reported (sown, results, missing, ready) = {} but really {}".format(
+                    where, which, got[:4], exp))
+        want = "{} / {} batches".format(len(model.finished), B)
+        if want not in got[4]:
+            raise Violation("progress-mismatch/str",
+                            "{}: str(crop) lacks '{}': {}".format(where, want, short(got[4], 200)))
+
+
+def checked_grow(m, model, how=None, ids=None):
+    """A grow op with the C08 oracles around it."""
+    t = m.tape
+    missing = sorted(model.all - model.finished)
+    before = G.snapshot_tree(m.location)
+    log0 = len(calllog.LOG)
+    if how is None:
+        how = t.weighted([("grow_fn", 3), ("crop_grow", 3), ("grow_missing", 2)], "grow-how")
+    # what will be targeted (needed to know whether failure is legitimate)
+    if how == "grow_fn":
+        ids = ids or [t.pick(sorted(model.all), "grow-id")]
+    elif how == "crop_grow" and ids is None:
+        n = t.int_between(1, min(m.B, 4), "grow-n")
+        ids = t.perm(sorted(model.all), "grow-ids")[:n]
+    targets = missing if how == "grow_missing" else list(ids)
+    may_fail = any(model.poisoned(b) for b in targets)
+    if how == "grow_missing" and not missing:
+        may_fail = True  # growing nothing: whatever happens, nothing may change
+    how, ids, exc = m.grow_op(ids=ids, how=how, must_succeed=not may_fail)
+    log_slice = calllog.LOG[log0:]
+    completed = model.completed_in(log_slice) & set(targets)
+    after = G.snapshot_tree(m.location)
+    created, removed, modified = G.diff_trees(before, after)
+    touched = set(created) | set(modified)
+    allowed = {"results/xyz-result-{}.jbdmp".format(b) for b in completed}
+    extra = touched - allowed
+    if extra or removed:
+        raise Violation(
+            "grow-touched-other-files",
+            "grow {} {} completed batches {} but created/modified {} and removed {}".format(
+                how, ids, sorted(completed), sorted(extra), removed))
+    lost = [p for p in allowed if p not in (after or {})]
+    if lost:
+        raise Violation("grow-completed-without-result",
+                        "batches {} ran to completion but {} missing".format(sorted(completed), lost))
+    # never evaluates settings outside the targeted batches
+    target_keys = set(k for b in targets for k in model.keys[b])
+    stray = [k for _, k in log_slice if k not in target_keys]
+    if stray:
+        raise Violation("grow-evaluated-untargeted-settings",
+                        "{} {} (targets {}) evaluated {}".format(how, ids, targets, short(stray, 200)))
+    model.finished |= completed
+    m.ctx.stats["grow-failed-legit"] += int(exc is not None)
+    if isinstance(exc, calllog.FnError):
+        m.w.fired["fn-raises"] += 1
+    return how, targets, exc
+
+
+def corrupt_bytes(t, good, nbatch):
+    how = t.pick(["truncate-half", "empty", "wronglen", "truncate-1"], "corrupt-how")
+    if how == "truncate-half":
+        return how, good[: max(1, len(good) // 2)]
+    if how == "empty":
+        return how, b""
+    if how == "truncate-1":
+        return how, good[:-1]
+    obj = pickle.loads(good)
+    return how, pickle.dumps(tuple(obj) + (obj[0],))
+
+
+def run_c08(ctx):
+    """reported progress == batches that really finished, over histories"""
+    m = CropMachine(ctx, max_n=24, max_batches=8)
+    t = ctx.tape
+    m.sow()
+    model = ProgressModel(m)
+    query_progress(m, model, "after sow")
+    nops = 0
+    kinds_done = set()
+    while nops < 12 and t.flag(7, 8, "more-ops"):
+        nops += 1
+        op = t.weighted([("grow", 6), ("poison", 2), ("resow", 2), ("delete", 2),
+                         ("corrupt", 2), ("check_bad", 1), ("reload", 1), ("unpoison", 1)],
+                        "op")
+        kinds_done.add(op)
+        if op == "grow":
+            checked_grow(m, model)
+        elif op == "poison":
+            b = t.pick(sorted(model.all), "poison-batch")
+            k = t.pick(model.keys[b], "poison-setting")
+            calllog.POISON.add(k)
+            ctx.t("poison", b, k)
+            continue
+        elif op == "unpoison":
+            calllog.POISON.clear()
+            ctx.t("unpoison")
+            continue
+        elif op == "resow":
+            before = G.snapshot_tree(os.path.join(m.location, "results"))
+            # "the same call again": either on the very object that sowed, or on a
+            # new object constructed with the same arguments (a new session)
+            same_obj = t.flag(1, 3, "resow-same-object")
+            crop = m.sow_crop if same_obj else m.new_sow_crop()
+            ctx.t("resow", "same-object" if same_obj else "new-object")
+            m.call("sower", lambda: m.do_sow(crop), oracle="resow-raised")
+            m.long_crop = m.sow_crop = crop
+            after = G.snapshot_tree(os.path.join(m.location, "results"))
+            if before != after:
+                raise Violation("resow-changed-results",
+                                "re-sowing the same shape changed results/: {}".format(
+                                    G.diff_trees(before, after)))
+            if G.read_batch_files(m.location).keys() != m.batches.keys():
+                raise Violation("resow-changed-batches", "batch ids changed on identical re-sow")
+        elif op == "delete":
+            if not model.finished:
+                continue
+            b = t.pick(sorted(model.finished), "delete-id")
+            ctx.t("delete_result", b)
+            m.w.fired["delete-result"] += 1
+            with m.actor("external"):
+                os.remove(os.path.join(m.location, "results", "xyz-result-{}.jbdmp".format(b)))
+            model.finished.discard(b)
+        elif op in ("corrupt", "check_bad"):
+            bad = []
+            if op == "corrupt" and model.finished:
+                b = t.pick(sorted(model.finished), "corrupt-id")
+                path = os.path.join(m.location, "results", "xyz-result-{}.jbdmp".format(b))
+                with interpose.real.open(path, "rb") as f:
+                    good = f.read()
+                how, data = corrupt_bytes(t, good, len(m.batches[b]))
+                ctx.t("corrupt_result", b, how)
+                m.w.fired["corrupt-result:" + how] += 1
+                with m.actor("external"):
+                    with open(path, "wb") as f:
+                        f.write(data)
+                bad = [b]
+            crop, which = m.crop_for("cb-reuse")
+            ctx.t("check_bad", which)
+
+            def f():
+                c = crop if crop is not None else m.load_crop()
+                return c.check_bad()
+
+            got, _ = m.call("checker", f, oracle="check_bad-raised")
+            try:
+                got_ids = sorted(int(x) for x in got)
+            except (TypeError, ValueError):
+                raise Violation("check_bad-wrong-report", "returned {!r}".format(got))
+            if got_ids != bad:
+                raise Violation("check_bad-wrong-report",
+                                "corrupted {} but check_bad reported {!r}".format(bad, got))
+            model.finished -= set(bad)
+            left = G.result_ids(m.location)
+            if left != model.finished:
+                raise Violation("check_bad-wrong-removal",
+                                "after check_bad results on disk {} expected {}".format(
+                                    sorted(left), sorted(model.finished)))
+        elif op == "reload":
+            ctx.t("reload")
+            val, _ = m.call("loader", m.load_crop, oracle="reload-raised")
+            m.long_crop = val
+        query_progress(m, model, "after op {} ({})".format(nops, op))
+    # growing the missing batches grows exactly those and makes the crop ready
+    calllog.POISON.clear()
+    missing = sorted(model.all - model.finished)
+    log0 = len(calllog.LOG)
+    how, targets, exc = checked_grow(m, model, how="grow_missing")
+    if missing:
+        called = sorted(k for _, k in calllog.LOG[log0:])
+        want = sorted(k for b in missing for k in model.keys[b])
+        if called != want:
+            raise Violation("grow_missing-not-exact",
+                            "missing {}: evaluated {} settings, expected exactly {}".format(
+                                missing, len(called), len(want)))
+    if model.finished != model.all:
+        raise Violation("grow_missing-left-missing",
+                        "after grow_missing model still misses {}".format(
+                            sorted(model.all - model.finished)))
+    query_progress(m, model, "after final grow_missing")
+    ctx.nontrivial = nops >= 2 and m.B >= 2
+    ctx.stats["ops"] += nops
+    for k in kinds_done:
+        ctx.stats["op-" + k] += 1
+    ctx.key = repr((m.B, [x.split(" ")[0:3] for x in ctx.trace[1:]]))
+
+
+# ------------------------------------------------------------------- C09
+
+VAR_DESC = {
+    # kind -> reap_combos_to_ds keyword arguments and output variable names
+    "scalar": ({"var_names": "x"}, ["x"]),
+    "int": ({"var_names": ["x"]}, ["x"]),
+    "tuple2": ({"var_names": ["x", "y"]}, ["x", "y"]),
+    "array": ({"var_names": "x", "var_dims": {"x": ["t"]}, "var_coords": {"t": [0, 1, 2]}}, ["x"]),
+    "bool": ({"var_names": "x"}, ["x"]),
+    "str": ({"var_names": ("x",)}, ["x"]),
+    "dict": ({"var_names": None}, ["u", "v"]),
+}
+
+
+def outputs_of(kind, value):
+    """reference value -> {var: value} as it appears in a Dataset/DataFrame"""
+    if kind in ("scalar", "int", "bool", "str", "array"):
+        return {"x": value}
+    if kind == "tuple2":
+        return {"x": value[0], "y": value[1]}
+    if kind == "dict":
+        return dict(value)
+    raise HarnessError(kind)
+
+
+def check_dataset(ds, sweep, sort_combos, finished_locs, kind, what):
+    """Every grid point of ds: exact where finished, missing elsewhere."""
+    import itertools
+    import numpy as np
+    from ..model import same, is_missing
+
+    exp = sweep.expected()
+    axes = sweep.axes(sort_combos)
+    for a, vals in axes:
+        if a not in ds.coords:
+            raise Violation(what + "/coord-absent", "dimension {} absent from {}".format(a, list(ds.coords)))
+        got = [plain(v) for v in ds.coords[a].values.tolist()]
+        if sorted(map(repr, got)) != sorted(map(repr, [plain(v) for v in vals])):
+            raise Violation(what + "/coord-values", "coordinate {} = {} expected {}".format(a, got, vals))
+    names = [a for a, _ in axes]
+    for combo in itertools.product(*[v for _, v in axes]):
+        locd = dict(zip(names, combo))
+        loc = frozenset((k, plain(v)) for k, v in locd.items())
+        point = ds.sel(**locd)
+        if loc in exp and (finished_locs is None or loc in finished_locs):
+            for var, ev in outputs_of(kind, exp[loc]).items():
+                gv = point[var].values
+                gv = gv.item() if gv.ndim == 0 else gv
+                if not same(gv, ev):
+                    raise Violation(what + "/wrong-value",
+                                    "at {} variable {} expected {} got {}".format(
+                                        locd, var, short(ev, 60), short(gv, 60)))
+        else:
+            for var in point.data_vars:
+                gv = point[var].values
+                gv = gv.item() if gv.ndim == 0 else gv
+                if not is_missing(gv):
+                    raise Violation(what + "/not-missing",
+                                    "at {} variable {} expected missing got {}".format(
+                                        locd, var, short(gv, 60)))
+
+
+def check_dataframe(df, sweep, finished_locs, kind, what):
+    from ..model import same, is_missing
+
+    exp = sweep.expected()
+    argn = sweep.case_args + [a for a, _ in sweep.combos]
+    rows = {}
+    for _, row in df.iterrows():
+        loc = frozenset((a, plain(row[a])) for a in argn)
+        if loc in rows:
+            raise Violation(what + "/duplicate-row", "two rows for {}".format(dict(loc)))
+        rows[loc] = row
+    if set(rows) != set(exp):
+        raise Violation(what + "/row-set", "rows for {} settings, expected {}".format(len(rows), len(exp)))
+    for loc, row in rows.items():
+        outs = outputs_of(kind, exp[loc])
+        for var, ev in outs.items():
+            gv = row[var]
+            if finished_locs is None or loc in finished_locs:
+                if not same(gv, ev):
+                    raise Violation(what + "/wrong-value",
+                                    "row {} column {} expected {} got {}".format(
+                                        dict(sorted(loc)), var, short(ev, 60), short(gv, 60)))
+            elif not is_missing(gv):
+                raise Violation(what + "/not-missing",
+                                "row {} column {} expected missing got {}".format(
+                                    dict(sorted(loc)), var, short(gv, 60)))
+
+
+def run_c09(ctx):
+    """partial reap: finished batches exact, everything else missing, nothing deleted"""
+    from xyzpy.gen.cropping import XYZError
+
+    kinds = [("scalar", 5), ("tuple2", 2), ("array", 2), ("bool", 1), ("str", 1),
+             ("dict", 1), ("int", 1)]
+    m = CropMachine(ctx, kinds=kinds, max_n=30, max_batches=7)
+    t = ctx.tape
+    m.sow()
+    sw = m.sc.sweep
+    kind = m.sc.kind
+    consts = set(sw.constants)
+    locs_of = {b: {G.loc_of(kw, consts) for kw in kws} for b, kws in m.batches.items()}
+    sizes = {b: len(kws) for b, kws in m.batches.items()}
+    enlarged = [b for b in sizes if sizes[b] > min(sizes.values())]
+    allb = sorted(m.batches)
+    finished = set()
+
+    def finished_locs():
+        return set().union(*[locs_of[b] for b in finished]) if finished else set()
+
+    def partial_reap(stage):
+        form = t.weighted([("raw", 3), ("ds", 2), ("df", 1)], "form")
+        if form == "df" and kind in ("array", "dict"):
+            form = "ds"
+        before = G.snapshot_tree(m.location)
+        crop, which = m.crop_for("reap-reuse")
+        ctx.t("partial-reap", form, which, "finished", sorted(finished))
+        kw, _ = VAR_DESC[kind]
+
+        def f():
+            c = crop if crop is not None else m.load_crop()
+            if form == "raw":
+                return c.reap(allow_incomplete=True)
+            return c.reap_combos_to_ds(allow_incomplete=True, to_df=(form == "df"), **kw)
+
+        res, _ = m.call("reaper", f, oracle="partial-reap-raised")
+        what = "partial-reap-" + form
+        if form == "raw":
+            bad = compare_nested(res, sw, m.sort_combos, finished_locs())
+            if bad is not None:
+                raise Violation(what + "/" + bad[0], bad[1] + " [finished batches {} of sizes {}]".format(
+                    sorted(finished), sizes))
+        elif form == "ds":
+            check_dataset(res, sw, m.sort_combos, finished_locs(), kind, what)
+        else:
+            check_dataframe(res, sw, finished_locs(), kind, what)
+        after = G.snapshot_tree(m.location)
+        if after != before:
+            raise Violation("partial-reap-changed-crop",
+                            "default partial reap changed the crop directory: {}".format(
+                                G.diff_trees(before, after)))
+        ctx.stats["partial-" + form] += 1
+
+    def refusal(stage):
+        before = G.snapshot_tree(m.location)
+        crop, which = m.crop_for("refuse-reuse")
+        ctx.t("reap-without-flag", which)
+
+        def f():
+            c = crop if crop is not None else m.load_crop()
+            return c.reap()
+
+        _, exc = m.call("reaper", f, must_succeed=False)
+        if exc is None:
+            raise Violation("incomplete-reap-not-refused",
+                            "reap() of a crop missing {} returned instead of raising".format(
+                                sorted(set(allb) - finished)))
+        if not isinstance(exc, XYZError):
+            raise Violation("incomplete-reap-wrong-error",
+                            "expected XYZError got {}: {}".format(type(exc).__name__, exc),
+                            site=xyz_site(exc))
+        if G.snapshot_tree(m.location) != before:
+            raise Violation("refused-reap-changed-crop", "refusal modified the crop directory")
+        ctx.stats["refusals"] += 1
+
+    if m.B >= 2:
+        # first subset: non-empty, proper; biased towards the uneven-batch boundary
+        nfin = t.int_between(1, m.B - 1, "nfinished")
+        order = t.perm(allb, "subset")
+        first = set(order[:nfin])
+        if enlarged and len(enlarged) < m.B and t.flag(1, 2, "straddle"):
+            r = max(enlarged)
+            boundary = t.pick(["last-enlarged-missing", "first-normal-missing", "both"], "boundary")
+            if boundary in ("last-enlarged-missing", "both"):
+                first.discard(r)
+            if boundary in ("first-normal-missing", "both") and r + 1 in sizes:
+                first.discard(r + 1)
+            if not first:
+                first = {b for b in allb if b not in (r, r + 1)} or {allb[0]}
+            if len(first) == m.B:
+                first.discard(r)
+        missing0 = set(allb) - first
+        if enlarged and max(enlarged) in missing0:
+            m.w.probes["last-enlarged-batch-missing"] += 1
+        if enlarged and (max(enlarged) + 1) in missing0:
+            m.w.probes["first-normal-batch-missing"] += 1
+        if 1 in missing0:
+            m.w.probes["first-batch-missing"] += 1
+        m.grow_op(ids=sorted(first), how="crop_grow")
+        finished |= first
+        refusal("first")
+        partial_reap("first")
+        rest = sorted(set(allb) - finished)
+        if len(rest) > 1 and t.flag(2, 3, "second-stage"):
+            more = t.perm(rest, "more")[: t.int_between(1, len(rest) - 1, "nmore")]
+            m.grow_op(ids=sorted(more), how="crop_grow")
+            finished |= set(more)
+            partial_reap("second")
+            if t.flag(1, 2, "refuse-again"):
+                refusal("second")
+        ctx.nontrivial = True
+    else:
+        refusal("nothing-grown")
+    m.grow_op(how="grow_missing")
+    finished = set(allb)
+    res, _ = m.reap()
+    bad = compare_nested(res, sw, m.sort_combos)
+    if bad is not None:
+        raise Violation("final-reap-differs/" + bad[0], bad[1])
+    ctx.key = repr((m.sc.N, sizes, m.sc.shuffle["value"], kind, m.sc.api,
+                    [x for x in ctx.trace if x.startswith(("partial", "grow"))]))
